@@ -730,7 +730,7 @@ func checkC12(c *lib.Ctx) {
 	r := c.R
 	res := &xfRes{r: r}
 	thorough := c.Tier == "thorough"
-	r.Rule = "(a) WriteTo offset sweep: file sizes 0..3*mp*min(conc,3)+2 x start offsets {0,1,mp,size-1,size,size+1} x UseConcurrentReads x UseFstat x (mp,conc) on the scripted peer; (b) PRNG sequences (quick 12, thorough 40 calls + Close + 4..18 calls after Close) of Read/ReadAt/Write/WriteAt/ReadFrom(6 source kinds)/ReadFromWithConcurrency/WriteTo/Seek(whence 0,1,2 and invalid 5,7,-1; negative targets)/Stat/Truncate on os-backed server, request server and scripted peer (in order and permuted replies) x client options (quick: every (mp,conc) pair with rotating booleans, thorough: full product), mirrored on an *os.File; (c) Close raced by 2 closers against 3..8 goroutines of ReadAt/WriteAt/Stat/Truncate on the scripted peer with the raw request stream parsed; non-trivial = a sequence that moves the offset through at least two different methods; distinct by the whole case text"
+	r.Rule = "(a) WriteTo offset sweep: file sizes 0..3*mp*min(conc,3)+2 x start offsets {0,1,mp,size-1,size,size+1} x UseConcurrentReads x UseFstat x (mp,conc) on the scripted peer; (b) PRNG sequences (quick ~12, thorough ~40 calls + Close + 4..18 calls after Close) of Read/ReadAt/Write/WriteAt/ReadFrom(6 source kinds)/ReadFromWithConcurrency/WriteTo/Seek(whence 0,1,2 and invalid 5,7,-1; negative targets)/Stat/Truncate on os-backed server, request server and scripted peer (in order and permuted replies) x client options (quick: every (mp,conc) pair with rotating booleans, thorough: full product), mirrored on an *os.File; (c) Close raced by 2 closers against 3..8 goroutines of ReadAt/WriteAt/Stat/Truncate on the scripted peer with the raw request stream parsed; non-trivial = a sequence that moves the offset through at least two different methods; distinct by the whole case text"
 	model := xfProbeModel(c)
 	xfProbeDefects(&model)
 	if model.Seq {
@@ -798,7 +798,7 @@ func checkC12(c *lib.Ctx) {
 	{
 		hold := &xfPeerHold{}
 		f12 := 0
-		for _, mp := range []int{4, 3, 1, 2, 7} {
+		for _, mp := range []int{2, 3, 4, 1, 7} {
 			for _, conc := range []int{64, 1, 2, 3} {
 				for b := 0; b < 4; b++ {
 					cfg := xfCfg{MP: mp, Conc: conc, CR: b&1 == 0, Fstat: b&2 != 0}
@@ -841,7 +841,7 @@ func checkC12(c *lib.Ctx) {
 		}
 		hold.Close()
 		if f12 > 0 {
-			r.Note("known defect F12 (key %s) observed on %d sweep inputs; the first one reported is the smallest (mp 4: 5-byte file; the 10-byte file of the design probe ends at offset 12)", xfKeyF12, f12)
+			r.Note("known defect F12 (key %s) observed on %d sweep inputs; the first one reported is the smallest (mp 2, 3-byte file => offset 4; the design probe's 10-byte file with mp 4 ends at offset 12)", xfKeyF12, f12)
 		}
 	}
 
@@ -861,7 +861,7 @@ func checkC12(c *lib.Ctx) {
 			jobs = append(jobs, xfJob{Spec: sp, Cfg: cfg, Seed: c.Rand.Int63(), Idx: len(jobs)})
 		}
 	}
-	perJob, seqLen := 6, 12
+	perJob, seqLen := 14, 12
 	if thorough {
 		perJob, seqLen = 30, 40
 	}
@@ -991,7 +991,7 @@ func checkC12(c *lib.Ctx) {
 	})
 
 	// (c) races
-	trials := 300
+	trials := 800
 	if thorough {
 		trials = 4000
 	}
@@ -1000,7 +1000,7 @@ func checkC12(c *lib.Ctx) {
 	for t := 0; t < trials; t++ {
 		cfg := xfCfg{MP: []int{1, 2, 3, 4, 7, 32768}[t%6], Conc: []int{1, 2, 3, 64}[(t/6)%4], CR: t%2 == 0, CW: t%3 == 0, Fstat: t%5 == 0}
 		sc := xfSeqCase{Srv: xfSrvSpec{Kind: "peer", Perm: t%4 == 3}, Cfg: cfg, FileLen: 1 + c.Rand.Intn(40), Window: 1, Seed: c.Rand.Int63(),
-			Race: &xfRace{Hammers: 3 + c.Rand.Intn(6), Closers: 2, Delay: c.Rand.Intn(60), Seed: c.Rand.Int63()}}
+			Race: &xfRace{Hammers: 3 + c.Rand.Intn(6), Closers: 2, Delay: c.Rand.Intn(200), Seed: c.Rand.Int63()}}
 		if cfg.MP > 1000 {
 			sc.FileLen = 1 + c.Rand.Intn(100000)
 		}
